@@ -1,5 +1,5 @@
 SPECIFICATION Spec
-CONSTANTS CatFile = "Place_catalogue_q.json"  MaxCons = 2  MaxSpec = 9  EarlyBreak = FALSE  SkipKnown = TRUE
+CONSTANTS CatFile = "Place_catalogue_neg2.json"  MaxCons = 2  MaxSpec = 9  EarlyBreak = FALSE  SkipKnown = TRUE
 INVARIANT Confluence
 INVARIANT Soundness
 INVARIANT PassItemsCommute
